@@ -5,6 +5,7 @@ import PygVerif.Model.Doc
 import PygVerif.Model.Listing
 import PygVerif.Model.Skel
 import PygVerif.Model.Umn
+import PygVerif.Model.Cache
 /-!
 # Driver — line protocol between the Python harness and the executable model
 
@@ -212,6 +213,14 @@ def step (fields : List String) : String :=
            (match l.e.port with | some p => toString p | none => "!"),
            (match l.e.num with | some p => toString p | none => "!"), encBool l.needsmerge,
            encOpt (l.e.getea (lit "ABSTRACT"))]))
+  | ["cacherun", lifetime, ops] =>
+    -- ops: space separated `m<version>` | `t<ms>` | `l`; directory = version number, listing = version
+    let parsed : List (Cache.Op Nat) := (ops.splitOn " ").filterMap fun o =>
+      if o.startsWith "m" then some (.mutate (o.drop 1).toNat!)
+      else if o.startsWith "t" then some (.tick (o.drop 1).toNat!)
+      else if o == "l" then some .list else none
+    let (_, outs) := Cache.run (D := Nat) (L := Nat) id lifetime.toNat! (Cache.init 0) parsed
+    " ".intercalate (outs.map fun (t, l) => toString t ++ ":" ++ toString l)
   | ["skeleton", st, page] =>
     let (s, k) := run (tstateOf st) (decStr page)
     (match s with | .text => "text" | .tag => "tag" | .attrDq => "dq" | .attrSq => "sq") ++ "\t" ++ encStr k
